@@ -61,8 +61,9 @@ RULE = ('for each call form: all tables of n rows (two fields) x every subset of
         'info:call log differs ...), never reported.  '
         'Excluded: StopIteration raised inside map() / a hand-written iterator (the iterator protocol defines it as '
         'the end of the row, not a failure); a raising `where` predicate, a mapper returning a non-row, policy values other than the three '
-        'documented ones (None / other truthy values), exceptions not derived from Exception; under True the '
-        'rows a generator produced for the failing input row before failing may or may not be delivered.')
+        'documented ones (None / other truthy values), exceptions not derived from Exception.  Under True every '
+        'row produced before the failure - including the rows a rowmapmany generator yielded for the failing source '
+        'row before it raised (0..2 of them) - must be delivered before the exception surfaces.')
 ASSUMPTIONS = ['tables have <= 4 rows (5 thorough) and two fields; user functions fail as a function of the cell value '
                '(and, in the stateful modes, of whether they met it before / of the call ordinal)',
                'the config default is read when the view is constructed (anchor petl/transform/conversions.py:338)']
